@@ -440,6 +440,20 @@ func wrapCheckFollows(info *types.Info, g *FG, loop *ast.ForStmt, iter types.Obj
 	isToStart := func(n ast.Node) bool {
 		return nodeHas(n, func(x ast.Node) bool { return methodCallOn(info, x, iter, "ToStart") })
 	}
+	// the read's ok result ends the loop only when it is (part of) the loop's own condition
+	if readOK != nil {
+		inCond := false
+		if loop.Cond != nil {
+			for _, cj := range conjuncts(loop.Cond) {
+				if id, ok := cj.(*ast.Ident); ok && info.Uses[id] == readOK {
+					inCond = true
+				}
+			}
+		}
+		if !inCond {
+			readOK = nil
+		}
+	}
 	skip, _ := g.exists(pathQuery{
 		from: pt,
 		stop: isToStart,
@@ -498,15 +512,27 @@ func coveringTraversal(info *types.Info, list []ast.Stmt, iter types.Object, met
 // (a parameter of a generic "for each from the start" helper): calling it with the visited
 // element counts as the method call (the caller has checked what the action is).
 func coveringTraversalWith(info *types.Info, list []ast.Stmt, iter types.Object, method string, arg types.Object, action types.Object) (bool, string) {
-	atStart := false
+	atStart, atEnd := false, false
 	for _, s := range list {
-		if fs, ok := s.(*ast.ForStmt); ok && fs.Cond != nil && findIterCond(info, fs.Cond, "HasNext") == iter {
-			// for X.ToStart(); X.HasNext(); { ... }
-			if es, ok := fs.Init.(*ast.ExprStmt); ok && methodCallOn(info, es.X, iter, "ToStart") {
-				atStart = true
+		fwd, bwd := false, false
+		if fs, ok := s.(*ast.ForStmt); ok && fs.Cond != nil {
+			fwd = findIterCond(info, fs.Cond, "HasNext") == iter
+			bwd = !fwd && findIterCond(info, fs.Cond, "HasPrevious") == iter
+		}
+		if fs, ok := s.(*ast.ForStmt); ok && (fwd || bwd) {
+			getM, toM := "GetNext", "ToStart"
+			if bwd {
+				getM, toM = "GetPrevious", "ToEnd"
 			}
-			if !atStart {
+			// for X.ToStart(); X.HasNext(); { ... }
+			if es, ok := fs.Init.(*ast.ExprStmt); ok && methodCallOn(info, es.X, iter, toM) {
+				atStart, atEnd = fwd, bwd
+			}
+			if fwd && !atStart {
 				return false, "the traversal over the outputs does not start from ToStart(): outputs before the iterator's current slot are skipped"
+			}
+			if bwd && !atEnd {
+				return false, "the backward traversal over the outputs does not start from ToEnd(): outputs after the iterator's current slot are skipped (all of them when the iterator still stands at the start)"
 			}
 			if _, isCall := ast.Unparen(fs.Cond).(*ast.CallExpr); !isCall {
 				return false, "the traversal stops on " + exprStr(fs.Cond) + ", not only at the end of the outputs"
@@ -519,13 +545,13 @@ func coveringTraversalWith(info *types.Info, list []ast.Stmt, iter types.Object,
 					switch d := x.(type) {
 					case *ast.ValueSpec:
 						for i, nm := range d.Names {
-							if i < len(d.Values) && methodCallOn(info, ast.Unparen(d.Values[i]), iter, "GetNext") {
+							if i < len(d.Values) && methodCallOn(info, ast.Unparen(d.Values[i]), iter, getM) {
 								elem = info.Defs[nm]
 							}
 						}
 					case *ast.AssignStmt:
 						for i, l := range d.Lhs {
-							if i < len(d.Rhs) && methodCallOn(info, ast.Unparen(d.Rhs[i]), iter, "GetNext") {
+							if i < len(d.Rhs) && methodCallOn(info, ast.Unparen(d.Rhs[i]), iter, getM) {
 								if id, ok := l.(*ast.Ident); ok {
 									if elem = info.Defs[id]; elem == nil {
 										elem = info.Uses[id]
@@ -542,7 +568,7 @@ func coveringTraversalWith(info *types.Info, list []ast.Stmt, iter types.Object,
 				}
 				isElem := func(e ast.Expr) bool {
 					e = ast.Unparen(e)
-					return (elem != nil && isObj(info, e, elem)) || methodCallOn(info, e, iter, "GetNext")
+					return (elem != nil && isObj(info, e, elem)) || methodCallOn(info, e, iter, getM)
 				}
 				if rx, mname, call, ok := methodCall(es.X); ok && mname == method && isElem(rx) {
 					if arg == nil && len(call.Args) == 0 {
@@ -577,13 +603,16 @@ func coveringTraversalWith(info *types.Info, list []ast.Stmt, iter types.Object,
 		inspectNoLit(s, func(x ast.Node) bool {
 			for _, m := range []string{"GetNext", "GetPrevious", "ToEnd", "ToSlot"} {
 				if methodCallOn(info, x, iter, m) {
-					atStart = false
+					atStart, atEnd = false, false
 				}
 			}
 			return true
 		})
 		if es, ok := s.(*ast.ExprStmt); ok && methodCallOn(info, es.X, iter, "ToStart") {
-			atStart = true
+			atStart, atEnd = true, false
+		}
+		if es, ok := s.(*ast.ExprStmt); ok && methodCallOn(info, es.X, iter, "ToEnd") {
+			atStart, atEnd = false, true
 		}
 	}
 	return false, "skip: no traversal `for X.HasNext() { ... X.GetNext() ... }` over the outputs at the top level"
